@@ -80,6 +80,7 @@ def stJson (st : St) : List (String × Json) :=
       ("parent", match s.parent with | some p => Json.num (p : Nat) | none => Json.null),
       ("locals", Json.arr (s.locals.map Json.str).toArray),
       ("globals_decl", Json.arr (s.globalsDecl.map Json.str).toArray),
+      ("nonlocals_decl", Json.arr (s.nonlocalsDecl.map Json.str).toArray),
       ("final", Json.num (s.flow : Nat)), ("returns", Json.num (s.returns : Nat))])).toArray),
    ("globals", Json.arr (st.globalNames.map (nameJson infos)).toArray),
    ("flow_attrs", Json.arr (st.flowAttrs.reverse.map (fun (p, id, f) =>
